@@ -31,7 +31,9 @@ Lbl(ls) == [present |-> TRUE, ls |-> ls]
 LabelSetsSmall == {Absent, Lbl(<<>>), Lbl(<<"a">>), Lbl(<<"a", "b">>), Lbl(<<"b", "a">>)}
 LabelSetsFull == {Absent, Lbl(<<>>), Lbl(<<"a">>), Lbl(<<"b">>), Lbl(<<"c">>), Lbl(<<"a", "b">>), Lbl(<<"b", "a">>), Lbl(<<"a", "c">>),
                   Lbl(<<"b", "c">>), Lbl(<<"c", "b">>), Lbl(<<"a", "b", "c">>), Lbl(<<"c", "a", "b">>),
-                  Lbl(<<"a", "a">>), Lbl(<<"b", "b">>), Lbl(<<"a", "a", "b">>)}      \* a recipient repeating a label
+                  Lbl(<<"a", "a">>), Lbl(<<"b", "b">>), Lbl(<<"a", "a", "b">>),      \* a recipient repeating a label
+                  \* labels are opaque strings: one label containing a separator, or the empty string, is one label
+                  Lbl(<<"a,b">>), Lbl(<<"">>), Lbl(<<"a b">>), Lbl(<<"", "a">>)}
 
 KType(k) == LET c == SubSeq(k, 1, 1) IN
             IF c = "x" THEN "X25519" ELSE IF c = "e" THEN "ssh-ed25519" ELSE IF c = "r" THEN "ssh-rsa" ELSE "scrypt"
